@@ -7,6 +7,16 @@ use std::str::FromStr;
 verus! {
 
 // ---- std items the extracted bodies call; specified only as far as the proofs need -------------------
+pub assume_specification<T>[ <Box<T> as From<T>>::from ](t: T) -> (r: Box<T>)
+    ensures *r == t;
+
+// x.to_string() goes through Display (vstd: to_string_from_display_ensures, with an axiom for str only);
+// for a String it is the identity on the text.
+#[verifier::external_body]
+pub broadcast proof fn axiom_to_string_of_string(s: &String, res: String)
+    ensures #[trigger] vstd::string::to_string_from_display_ensures::<String>(s, res) ==> res@ == s@
+{}
+
 pub assume_specification[ str::to_lowercase ](s: &str) -> (r: String);
 
 pub assume_specification[ str::to_ascii_lowercase ](s: &str) -> (r: String);
